@@ -44,6 +44,9 @@ pub struct Spec {
     /// does not verify (0: inner link missing, 1: expired, 2: inner rule fails, 3: inner link by a stranger)
     #[serde(default)]
     pub surplus_sub: Option<u8>,
+    /// the layout and every link carry additional valid signatures by keys nobody trusts or authorises
+    #[serde(default)]
+    pub cosigned: bool,
 }
 
 /// Step `i` delegated by two authorised functionaries; the copy filed by `bad` cannot verify.
@@ -137,7 +140,28 @@ pub fn verify_dir_once(dir: &std::path::Path) -> serde_json::Value {
 }
 
 /// Build the world under test: step `i` gets threshold <= 1 and additional, differing, valid links.
+fn cosign(w: &mut World) {
+    w.sigs.push(SigEntry::good(&stranger(11)));
+    w.sigs.push(SigEntry::good(&stranger(12)));
+    w.sigs.insert(0, SigEntry::good(&stranger(13)));
+    for f in w.links.iter_mut() {
+        if let Body::Link { sigs, .. } = &mut f.body {
+            sigs.push(SigEntry::good(&stranger(14)));
+            sigs.insert(0, SigEntry::good(&stranger(15)));
+            sigs.push(SigEntry::good(&stranger(16)));
+        }
+    }
+}
+
 fn build(spec: &Spec) -> Option<World> {
+    let mut w = build_inner(spec)?;
+    if spec.cosigned {
+        cosign(&mut w);
+    }
+    Some(w)
+}
+
+fn build_inner(spec: &Spec) -> Option<World> {
     if let Some(kind) = spec.surplus_sub {
         return build_surplus_sub(spec, kind);
     }
@@ -244,7 +268,7 @@ impl Property for C13 {
     fn rule() -> String {
         "Generated: valid worlds in which one step gets threshold <= 1 and 2-4 validly signed, authorised links that differ (extra product, \
          extra material, other digest, or only command/byproducts), optionally with a rule (DISALLOW variant-*) that only some of them \
-         violate, or with an artifact recorded under two digest algorithms that agree on one and differ on the other, tied by MATCH + DISALLOW; or the step is delegated by two authorised functionaries at threshold 1 and one of the two sub-layouts cannot verify (inner link missing / by a stranger, expired, inner rule failure); the files of the link directory are created in a generated order. Before the repetitions the process verifies the directory once while each link file is a same-size, same-mtime near copy of its final content (history on disk). Oracle (invariant over repetitions): R in-process \
+         violate, or with an artifact recorded under two digest algorithms that agree on one and differ on the other, tied by MATCH + DISALLOW; or the step is delegated by two authorised functionaries at threshold 1 and one of the two sub-layouts cannot verify (inner link missing / by a stranger, expired, inner rule failure); a quarter of the worlds additionally carry three valid signatures by untrusted keys on the layout and on every link (more signatures than authorised keys); the files of the link directory are created in a generated order. Before the repetitions the process verifies the directory once while each link file is a same-size, same-mtime near copy of its final content (history on disk). Oracle (invariant over repetitions): R in-process \
          repetitions (every HashMap gets fresh hash keys) and P fresh processes give the same verdict and, on success, the same summary \
          link as a JSON value. R=16,P=2 quick (miss probability for a fair flip 2^-17); R=64,P=8 thorough. Non-trivial: at least two counted \
          links of one step differ; distinct by (layout shape, variants, rule trap, step position)."
@@ -267,8 +291,9 @@ impl Property for C13 {
             prop_oneof![3 => Just(false), 1 => Just(true)],
             prop_oneof![3 => Just(false), 1 => Just(true)],
             prop_oneof![5 => Just(None), 1 => (0u8..4).prop_map(Some)],
+            prop_oneof![3 => Just(false), 1 => Just(true)],
         )
-            .prop_map(|((world, owners), step, variants, rule_trap, creation_order, two_digest_match, multi_party, surplus_sub)| Spec { world, owners, step, variants, rule_trap, creation_order, two_digest_match, multi_party, surplus_sub })
+            .prop_map(|((world, owners), step, variants, rule_trap, creation_order, two_digest_match, multi_party, surplus_sub, cosigned)| Spec { world, owners, step, variants, rule_trap, creation_order, two_digest_match, multi_party, surplus_sub, cosigned })
             .prop_filter("buildable", |s| build(s).is_some())
             .boxed()
     }
@@ -311,6 +336,9 @@ impl Property for C13 {
         if spec.multi_party {
             o.class("multi-party-with-differing-links");
         }
+        if spec.cosigned {
+            o.class("cosigned-by-untrusted-keys");
+        }
         if let Some(k) = spec.surplus_sub {
             o.class(format!("surplus-failing-sub-layout:{}", k % 4));
         }
@@ -343,7 +371,7 @@ impl Property for C13 {
         let oks = outcomes.iter().filter(|v| v["ok"] == true).count();
         o.class(if oks == outcomes.len() { "verdict:always-ok" } else if oks == 0 { "verdict:always-err" } else { "verdict:flips" });
         if oks != 0 && oks != outcomes.len() {
-            o.fail(format!("C13/verdict-flips/{}", if spec.surplus_sub.is_some() { "surplus-failing-sub-layout" } else if spec.two_digest_match { "two-digest-match" } else if spec.rule_trap { "rule-on-differing-links" } else { "other" }),
+            o.fail(format!("C13/verdict-flips/{}", if spec.surplus_sub.is_some() { "surplus-failing-sub-layout" } else if spec.cosigned { "cosigned" } else if spec.two_digest_match { "two-digest-match" } else if spec.rule_trap { "rule-on-differing-links" } else { "other" }),
                 format!("{} of {} repetitions returned Ok, the others Err; first Err: {:?}", oks, outcomes.len(), outcomes.iter().find(|v| v["ok"] != true).map(|v| v["err"].clone())),
                 "the same verdict every time");
         } else if oks == outcomes.len() {
@@ -353,8 +381,8 @@ impl Property for C13 {
                 o.fail(format!("C13/summary-differs/{}", what), format!("summaries differ between repetitions: {} vs {}", first, other["summary"]), "the same summary every time");
             }
         }
-        if j.ambiguous || spec.two_digest_match || spec.multi_party || spec.surplus_sub.is_some() {
-            o.nontrivial(format!("{}|{:?}|{}|{}|{}|{}|{:?}", w.layout.steps.len(), spec.variants, spec.rule_trap, spec.step as usize % w.layout.steps.len(), spec.two_digest_match, spec.multi_party, spec.surplus_sub));
+        if j.ambiguous || spec.two_digest_match || spec.multi_party || spec.surplus_sub.is_some() || spec.cosigned {
+            o.nontrivial(format!("{}|{:?}|{}|{}|{}|{}|{:?}", w.layout.steps.len(), spec.variants, spec.rule_trap, spec.step as usize % w.layout.steps.len(), spec.two_digest_match, spec.multi_party, (spec.surplus_sub, spec.cosigned)));
         }
         let _ = std::fs::remove_dir_all(&dir);
         o
